@@ -226,8 +226,10 @@ type explorer struct {
 	total     [nKinds]*stats
 	nonrepro  atomic.Int64
 	confirmed sync.Map // signature -> *atomic.Int64 occurrences
+	child     *neighResult // set in a child process (neigh.go): violations and notes are collected and returned to the supervisor
 	provWords [nProvs]atomic.Int64
 	capped    atomic.Bool
+	neighExtra map[string]int64
 }
 
 func (e *explorer) merge(kind int, s *stats) {
@@ -284,6 +286,7 @@ type replayCase struct {
 	Cross bool   `json:"cross,omitempty"` // a writable WithDirMount is mounted next to the immutable one
 	Prov  string `json:"provenance,omitempty"`
 	Base  bool   `json:"base_tree,omitempty"`   // the small tree without the additional symlinks
+	Neigh bool   `json:"neighbour,omitempty"`   // neighbour word (neigh.go): descriptors "new"/"ren"/"rw" belong to the writable mount
 	Deriv []dop  `json:"derivation,omitempty"`  // kind "deriv": the FSConfig derivation
 	Idx   int    `json:"mount_index,omitempty"` // kind "deriv": index of the mount under test (preopen 3+index)
 	Word  []step `json:"word"`
@@ -294,7 +297,7 @@ func (w *world) rcase(word []step) replayCase {
 	if w.prov != pDirect {
 		pn = provNames[w.prov]
 	}
-	return replayCase{kindNames[w.kind], w.cross, pn, !w.ext, w.deriv, w.derivIdx, append([]step{}, word...)}
+	return replayCase{kindNames[w.kind], w.cross, pn, !w.ext, w.neigh, w.deriv, w.derivIdx, append([]step{}, word...)}
 }
 
 // crossOps: operations with two descriptors, one on a WRITABLE mount ("rw": w.txt, wd/) and one on the
@@ -366,7 +369,7 @@ func (e *explorer) runWord(w *world, st *stats, word []step) ([]uint32, bool) {
 		w.sinceFull = 0
 		st.fullSnaps++
 		if cur := w.snapshot(); cur != w.baseline {
-			e.run.Note("full snapshot differs although every per-step fingerprint since the last full snapshot (<= %d words) matched", e.fullEvery)
+			e.note("full snapshot differs although every per-step fingerprint since the last full snapshot (<= %d words) matched", e.fullEvery)
 			e.changed(w, st, executed, cur)
 			return errs, false
 		}
@@ -379,7 +382,7 @@ func (e *explorer) runWord(w *world, st *stats, word []step) ([]uint32, bool) {
 func (e *explorer) changed(w *world, st *stats, executed []step, cur string) {
 	effect, detail := diffSnap(w.baseline, cur)
 	last := executed[len(executed)-1]
-	sig := w.sigPrefix() + ":" + last.Op + argClass(last) + ":" + effect
+	sig := w.sigPrefix() + ":" + last.Op + w.fdSide(last) + argClass(last) + ":" + effect
 	w.freshTree()
 	st.resets++
 	at, eff2 := len(executed)-1, effect
@@ -398,11 +401,11 @@ func (e *explorer) changed(w *world, st *stats, executed []step, cur string) {
 	what := fmt.Sprintf("mount=%s word=[%s]: step %d changed the host state: %s", kindNames[w.kind], strings.Join(names, " ; "), len(executed), detail)
 	if at != len(executed)-1 || eff2 != effect {
 		e.nonrepro.Add(1)
-		e.run.Note("NOT REPRODUCED (first run: %s; second run: change at step %d effect %q): %s", effect, at+1, eff2, what)
+		e.note("NOT REPRODUCED (first run: %s; second run: change at step %d effect %q): %s", effect, at+1, eff2, what)
 		return
 	}
 	st.outcomes["CHANGED:"+sig]++
-	e.run.Violation(sig, what, w.rcase(executed))
+	e.violation(sig, what, w.rcase(executed))
 }
 
 const confirmPerSignature = 16
@@ -414,6 +417,9 @@ func (e *explorer) confirmations(sig string) int64 {
 
 // sigPrefix: mount kind, plus the configuration provenance when it is not the direct one.
 func (w *world) sigPrefix() string {
+	if w.neigh {
+		return kindNames[w.kind] + "+neighbour"
+	}
 	if w.kind == kDeriv {
 		return derivClass(derivModel(w.deriv), w.derivIdx)
 	}
@@ -450,14 +456,14 @@ func (e *explorer) finalRead(w *world, st *stats) {
 		st.reads++
 		st.outcomes["read-through:"+errName(en)]++
 		if en != 0 || got != pc[1] {
-			e.run.Violation(w.sigPrefix()+":read-through-mount:"+pc[0],
+			e.violation(w.sigPrefix()+":read-through-mount:"+pc[0],
 				fmt.Sprintf("mount=%s: reading %q through the mount after the shard gives errno=%s content=%q, want %q", kindNames[w.kind], pc[0], errName(en), got, pc[1]),
 				w.rcase(nil))
 		}
 	}
 	if cur := w.snapshot(); cur != w.baseline {
 		_, detail := diffSnap(w.baseline, cur)
-		e.run.Violation(w.sigPrefix()+":read-through-mount:changed", "reading through the mount changed the host state: "+detail, w.rcase(nil))
+		e.violation(w.sigPrefix()+":read-through-mount:changed", "reading through the mount changed the host state: "+detail, w.rcase(nil))
 		w.freshTree()
 	}
 }
@@ -657,6 +663,10 @@ func main() {
 		replayMain(os.Args[2])
 		return
 	}
+	if fw.IsChild() {
+		neighChild()
+		return
+	}
 	run := fw.Start("C17", "exploration")
 	tmp, err := os.MkdirTemp("", "c17-")
 	must(err)
@@ -725,7 +735,13 @@ func main() {
 		shards = append(shards, func() { e.derivShard(part) })
 	}
 	t0 := time.Now()
+	if os.Getenv("C17_ONLY") == "neigh" { // developer aid only: measure the neighbour family alone
+		shards = shards[:1]
+	}
 	fw.Parallel(len(shards), runtime.NumCPU(), func(i int) { shards[i]() })
+	// neighbour words: one child process per worker, one world at a time per process (host descriptor numbers
+	// are process-wide, so this family must not share a process with concurrently running worlds)
+	neighCases := e.neighSupervise()
 	wall := time.Since(t0).Seconds()
 	pprof.StopCPUProfile()
 	os.RemoveAll(tmp)
@@ -740,7 +756,7 @@ func main() {
 	bounds := map[string]any{
 		"paths": paths, "oflags": "all 16", "fdflags": "all 32", "rights": []string{"0", "READ", "WRITE", "READ|WRITE", "ALL"}, "lookupflags": "0,1",
 		"fd_tails": len(fdTails(e.thorough)), "path_tails_dir": len(pathTails(true, e.thorough, true)), "path_tails_nondir": len(pathTails(false, e.thorough, true)),
-		"provenances": provNames[:], "three_step_words": e.thorough, "two_descriptor_words": e.thorough, "full_snapshot_every_words": e.fullEvery, "shards": len(shards), "explore_wall_s": float64(int(wall*10)) / 10,
+		"neighbour_words": neighBounds(e.thorough, neighCases), "provenances": provNames[:], "three_step_words": e.thorough, "two_descriptor_words": e.thorough, "full_snapshot_every_words": e.fullEvery, "shards": len(shards), "explore_wall_s": float64(int(wall*10)) / 10,
 	}
 	var steps, words, nontriv, reads, opensOK int64
 	perKind := map[string]any{}
@@ -775,7 +791,7 @@ func main() {
 		Rule:    "one evaluation = one WASI call executed through the guest followed by a full snapshot comparison; a case is a (mount, word) tuple, every tuple is enumerated exactly once; non-trivial = the word's last step was not stopped by argument validation (errno other than EINVAL/EFAULT/EPERM/ENOTDIR)",
 		Samples: e.samples.List(), Exhaustive: true, Outcomes: outcomes, Bounds: bounds,
 		Extra: map[string]any{"derivations": map[string]int64{"derivations": e.total[kDeriv].derivs, "readonly_mounts_attacked": e.total[kDeriv].derivRO, "writable_mounts_twin_checked": e.total[kDeriv].derivRW},
-			"words_per_provenance": provWords, "words": words, "successful_open_classes_extended_to_sequences": opensOK, "read_through_checks": reads, "per_mount": perKind},
+			"neighbour_words": e.neighExtra, "words_per_provenance": provWords, "words": words, "successful_open_classes_extended_to_sequences": opensOK, "read_through_checks": reads, "per_mount": perKind},
 	}, []string{
 		"the host kernel is trusted for lstat/readdir/read used by the snapshot; atime is excluded (kernel updates it on reads) except for the poison value the guest tries to set",
 		"one guest thread; concurrency between guests on the same mount is not exercised",
@@ -798,6 +814,10 @@ func replayMain(file string) {
 	tmp, err := os.MkdirTemp("", "c17-replay-")
 	must(err)
 	w := newWorld(kindByName(doc.Replay.Mount), tmp, doc.Replay.Cross, provByName(doc.Replay.Prov), !doc.Replay.Base)
+	if doc.Replay.Neigh {
+		w.neigh = true
+		w.instantiate() // the baseline snapshot may have used the preopens: start from an untouched instance
+	}
 	if w.kind == kDeriv {
 		w.setDerivation(doc.Replay.Deriv)
 		w.pre, w.derivIdx = uint64(preFD+doc.Replay.Idx), doc.Replay.Idx
